@@ -424,10 +424,11 @@ func ruleLabelIdentity(r *Run) {
 	{
 		fn := p.Func(enginePkg, "parsePackEntry")
 		o := r.Ob("PV-CONST", "logqlengine.parsePackEntry", "the string field _entry becomes the line; every other string field becomes a label of its own name; non-string fields are skipped")
-		if fn == nil || len(fn.AnonFuncs) == 0 {
+		cl, clRecv := unpackFieldHandler(fn)
+		if fn == nil || cl == nil {
 			o.Fail("-", "function/closure not found")
 		} else {
-			cl := fn.AnonFuncs[0]
+			keyParam := cl.Params[len(cl.Params)-1]
 			bad := false
 			var cmp *ssa.BinOp
 			allInstrs(cl, func(in ssa.Instruction) {
@@ -454,7 +455,7 @@ func ruleLabelIdentity(r *Run) {
 						bad = true
 						o.Fail(r.pos(sets[0].Pos()), "_entry itself is exposed as a label, or the test is missing")
 					}
-					if stripConv(sets[0].Common().Args[1]) != ssa.Value(cl.Params[1]) {
+					if stripConv(sets[0].Common().Args[1]) != ssa.Value(keyParam) {
 						bad = true
 						o.Fail(r.pos(sets[0].Pos()), "the label is %s, not the field's key", describe(sets[0].Common().Args[1], 0))
 					}
@@ -462,7 +463,14 @@ func ruleLabelIdentity(r *Run) {
 				lineStored := false
 				allInstrs(cl, func(in ssa.Instruction) {
 					if st, ok := in.(*ssa.Store); ok {
-						if _, ok := st.Addr.(*ssa.FreeVar); ok {
+						_, isFree := st.Addr.(*ssa.FreeVar)
+						if !isFree && clRecv {
+							// the handler is a method of a state struct: the line is a field of its receiver
+							if _, base, ok := fieldNameOf(st.Addr); ok && base == ssa.Value(cl.Params[0]) && isStringType(st.Val.Type()) {
+								isFree = true
+							}
+						}
+						if isFree {
 							if b, known := knownBoolAt(st.Block(), cmp); known && b {
 								if c, idx, ok := extractOf(st.Val); ok && idx == 0 && callIs(c, jxPath, "(*Decoder).Str") {
 									lineStored = true
@@ -977,4 +985,25 @@ func ruleStructEquality(r *Run, rel, recv, method string) {
 		return
 	}
 	o.OK("compares all %d fields", st.NumFields()).At(r.pos(fn.Pos()))
+}
+
+// unpackFieldHandler: the function that handles one field of the packed object: the callback
+// handed to (*jx.Decoder).ObjBytes by the unpack routine (a function literal, or a method value of
+// a state struct; recv says which).
+func unpackFieldHandler(fn *ssa.Function) (h *ssa.Function, recv bool) {
+	if fn == nil {
+		return nil, false
+	}
+	for _, g := range funcGroup(fn) {
+		for _, c := range callsIn(g) {
+			if !callIs(c, jxPath, "(*Decoder).ObjBytes") || len(c.Common().Args) < 2 {
+				continue
+			}
+			f, bound := predicateOf(c.Common().Args[1])
+			if f != nil && f.Blocks != nil && len(f.Params) >= 2 {
+				return f, bound != nil
+			}
+		}
+	}
+	return nil, false
 }
